@@ -352,6 +352,8 @@ def run(ctx):
         subquery_histories(ctx, mon)
     if ctx.shard % 4 == 2 or not ctx.quick:
         pivot_statements(ctx, mon)
+    if ctx.shard == 3 % ctx.nshards:
+        testsuite_under_monitors(ctx)
 
 
 run.last = 0
@@ -441,6 +443,42 @@ def pivot_statements(ctx, mon):
                 check_result(ctx, text, res[0], res[1], mon, case, prefix='c04.pivot')
 
 
+def testsuite_under_monitors(ctx):
+    """The repository's own test-suite as a workload: run it under the M2/M3/M4 monitors (pytest plug-in); the test
+    outcomes are ignored, the monitors' observations count."""
+    import json
+    import os
+    import subprocess
+    import sys
+    import tempfile
+    import beanquery
+    root = os.path.dirname(os.path.dirname(os.path.abspath(beanquery.__file__)))
+    verif = os.path.dirname(os.path.dirname(os.path.dirname(os.path.abspath(__file__))))
+    fd, report = tempfile.mkstemp(prefix='bqv-pytest-', suffix='.json')
+    os.close(fd)
+    env = dict(os.environ)
+    env['PYTHONPATH'] = os.pathsep.join([root, verif, os.path.join(verif, '.deps')])
+    env['BQVERIF_PYTEST_REPORT'] = report
+    try:
+        subprocess.run([sys.executable, '-m', 'pytest', '-q', '--no-header', '-p', 'no:cacheprovider', '-p', 'bqverif.pytest_monitors',
+                        os.path.join(root, 'beanquery')], cwd=root, env=env, capture_output=True, text=True, timeout=900)
+        with open(report) as f:
+            rep = json.load(f)
+    except Exception as exc:  # noqa: BLE001
+        ctx.notes.append(f'test-suite workload did not run: {exc!r}')
+        return
+    finally:
+        try:
+            os.unlink(report)
+        except OSError:
+            pass
+    ctx.count('obs.testsuite_tests_run_under_monitors', rep.get('tests', 0))
+    ctx.count('obs.testsuite_node_evaluations', rep.get('node_evaluations', 0))
+    ctx.case(('testsuite', rep.get('tests', 0)), False, n=rep.get('tests', 0))
+    for v in rep.get('violations', [])[:5]:
+        ctx.violation(f"c04.testsuite.{v['kind']}", f"while running {v['test']}: {v['detail']}", {'test': v['test']})
+
+
 def subquery_histories(ctx, mon):
     """Histories of statements over sub-queries on one connection: the names and datatypes a sub-query exposes belong to that
     statement only. A later statement that uses a name some EARLIER sub-query defined must either be rejected or be type-sound."""
@@ -494,6 +532,8 @@ def finalize(merged):
         reasons.append(f"registry sweep incomplete: {len(ex) + len(nc)}/{c.get('registry.instantiations')}")
     if c.get('obs.node_evaluations', 0) == 0:
         reasons.append('node evaluation hook never fired')
+    if c.get('obs.testsuite_node_evaluations', 0) == 0:
+        reasons.append('the test-suite workload observed no node evaluation')
     if c.get('obs.pivot_statements', 0) == 0:
         reasons.append('no PIVOT BY statement executed')
     if c.get('obs.subquery_history_statements', 0) == 0:
